@@ -3,6 +3,7 @@
 From Coq Require Import ZArith NArith List Lia Bool FMapPositive.
 From CB Require Import Common.IntN Common.IntNProofs Wasm.Syntax Wasm.Sem.
 Import ListNotations.
+Local Open Scope Z_scope.
 
 Section Mono.
 Variable host : nat -> list val -> option memory -> host_result.
@@ -31,14 +32,134 @@ Lemma eseq_S f s l st is :
   end.
 Proof. reflexivity. Qed.
 
+Lemma einstr_S f s locals stack i :
+  einstr (S f) s locals stack i =
+      match i with
+      | Block bt body =>
+          (* label of arity |bt| whose continuation is the end of the block *)
+          match eseq f s locals [] body with
+          | RNormal s' l' vs => RNormal s' l' (firstn (arity bt) vs ++ stack)
+          | RBr O s' l' vs => RNormal s' l' (firstn (arity bt) vs ++ stack)
+          | RBr (S k) s' l' vs => RBr k s' l' vs
+          | r => r
+          end
+      | Loop bt body =>
+          (* label of arity 0 (no block parameters in 1.0) whose continuation is the loop *)
+          match eseq f s locals [] body with
+          | RNormal s' l' vs => RNormal s' l' (firstn (arity bt) vs ++ stack)
+          | RBr O s' l' _ => einstr f s' l' stack (Loop bt body)
+          | RBr (S k) s' l' vs => RBr k s' l' vs
+          | r => r
+          end
+      | If bt thn els =>
+          match stack with
+          | VI32 c :: st => einstr f s locals st (Block bt (if c =? 0 then els else thn))
+          | _ => RStuck
+          end
+      | Basic (BBr l) => RBr l s locals stack
+      | Basic (BBrIf l) =>
+          match stack with
+          | VI32 c :: st => if c =? 0 then RNormal s locals st else RBr l s locals st
+          | _ => RStuck
+          end
+      | Basic (BBrTable ls d) =>
+          match stack with
+          | VI32 c :: st =>
+              (* if c < |ls| then br ls[c] else br d *)
+              RBr (if c <? Z.of_nat (length ls)
+                   then match nth_opt ls (Z.to_nat c) with Some l => l | None => d end
+                   else d) s locals st
+          | _ => RStuck
+          end
+      | Basic BReturn => RReturn s stack
+      | Basic (BCall fi) =>
+          match func_type m fi with
+          | Some ft =>
+              match take_args (length (ft_params ft)) stack [] with
+              | Some (args, st) =>
+                  match inv f s fi args with
+                  | inr (s', r) => RNormal s' locals (match r with Some v => v :: st | None => st end)
+                  | inl r => r
+                  end
+              | None => RStuck
+              end
+          | None => RStuck
+          end
+      | Basic (BCallIndirect ti) =>
+          match stack, nth_opt (m_types m) ti with
+          | VI32 c :: st0, Some ft =>
+              match (if c <? Z.of_nat (length (s_table s)) then nth_opt (s_table s) (Z.to_nat c) else None) with
+              | Some (Some fi) =>
+                  match func_type m fi with
+                  | Some ft' =>
+                      if functype_eqb ft ft' then
+                        match take_args (length (ft_params ft)) st0 [] with
+                        | Some (args, st) =>
+                            match inv f s fi args with
+                            | inr (s', r) => RNormal s' locals (match r with Some v => v :: st | None => st end)
+                            | inl r => r
+                            end
+                        | None => RStuck
+                        end
+                      else RTrap
+                  | None => RStuck
+                  end
+              | _ => RTrap   (* index out of table bounds or uninitialised element *)
+              end
+          | _, _ => RStuck
+          end
+      | Basic b =>
+          match exec_simple cap b s locals stack with
+          | inr (s', l', st') => RNormal s' l' st'
+          | inl true => RTrap
+          | inl false => RStuck
+          end
+      end.
+Proof. reflexivity. Qed.
+
+Lemma inv_S f s fi args :
+  inv (S f) s fi args =
+      let ni := length (m_imports m) in
+      if (fi <? ni)%nat then
+        match func_type m fi with
+        | Some ft =>
+            match host fi args (s_mem s) with
+            | HostOk mm r => inr (set_mem s mm, r)
+            | HostTrap => inl RTrap
+            end
+        | None => inl RStuck
+        end
+      else
+        match nth_opt (m_funcs m) (fi - ni) with
+        | Some fn =>
+            match nth_opt (m_types m) (f_type fn) with
+            | Some ft =>
+                let locals := args ++ map zero_of (f_locals fn) in
+                let fin (s' : store) (vs : list val) : sum res (store * option val) :=
+                  match ft_result ft with
+                  | None => inr (s', None)
+                  | Some _ => match vs with v :: _ => inr (s', Some v) | [] => inl RStuck end
+                  end in
+                match eseq f s locals [] (f_body fn) with
+                | RNormal s' _ vs => fin s' vs
+                | RBr O s' _ vs => fin s' vs
+                | RReturn s' vs => fin s' vs
+                | RBr (S _) _ _ _ => inl RStuck
+                | r => inl r
+                end
+            | None => inl RStuck
+            end
+        | None => inl RStuck
+        end.
+Proof. reflexivity. Qed.
+
 Lemma mono_seq_step f : mono_seq f -> mono_instr f -> mono_seq (S f).
 Proof.
   intros IHs IHi f' s l st is Hle Hne. destruct f' as [|f']; [lia|]. assert (Hle' : (f <= f')%nat) by lia.
   rewrite !eseq_S in *. destruct is as [|i rest]; [reflexivity|].
   destruct (einstr f s l st i) eqn:E;
     (rewrite (IHi f' s l st i Hle') by (rewrite E; try discriminate; exact Hne)); rewrite E; try reflexivity.
-  - apply IHs; auto.
-  - contradiction.
+  apply IHs; auto.
 Qed.
 
 Lemma call_result_mono f f' s fi args :
@@ -52,14 +173,14 @@ Proof.
   - (* Basic *)
     destruct b; try reflexivity.
     + (* call *)
-      cbn [exec_instr] in *.
+      rewrite !einstr_S in *.
       destruct (func_type m f0) as [ft|]; [|reflexivity].
       destruct (take_args (length (ft_params ft)) st []) as [[args st']|]; [|reflexivity].
       destruct (inv f s f0 args) eqn:E;
         (rewrite (IHv f' s f0 args Hle') by (rewrite E; intro X; inversion X; subst; apply Hne; reflexivity));
         rewrite E; reflexivity.
     + (* call_indirect *)
-      cbn [exec_instr] in *.
+      rewrite !einstr_S in *.
       destruct st as [|[c|c] st0]; try reflexivity.
       destruct (nth_opt (m_types m) ty) as [ft|]; [|reflexivity].
       destruct (if (c <? Z.of_nat (length (s_table s)))%Z then nth_opt (s_table s) (Z.to_nat c) else None) as [[fi|]|]; try reflexivity.
@@ -70,22 +191,22 @@ Proof.
         (rewrite (IHv f' s fi args Hle') by (rewrite E; intro X; inversion X; subst; apply Hne; reflexivity));
         rewrite E; reflexivity.
   - (* Block *)
-    cbn [exec_instr] in *.
+    rewrite !einstr_S in *.
     destruct (eseq f s l [] body) eqn:E;
       (rewrite (IHs f' s l [] body Hle') by (rewrite E; try discriminate; exact Hne)); rewrite E; reflexivity.
   - (* Loop *)
-    cbn [exec_instr] in *.
+    rewrite !einstr_S in *.
     destruct (eseq f s l [] body) eqn:E;
       (rewrite (IHs f' s l [] body Hle') by (rewrite E; try discriminate; exact Hne)); rewrite E; try reflexivity.
     destruct l0; [|reflexivity]. apply IHi; auto.
   - (* If *)
-    cbn [exec_instr] in *. destruct st as [|[c|c] st0]; try reflexivity. apply IHi; auto.
+    rewrite !einstr_S in *. destruct st as [|[c|c] st0]; try reflexivity. apply IHi; auto.
 Qed.
 
 Lemma mono_inv_step f : mono_seq f -> mono_inv (S f).
 Proof.
   intros IHs f' s fi args Hle Hne. destruct f' as [|f']; [lia|]. assert (Hle' : (f <= f')%nat) by lia.
-  cbn [invoke] in *.
+  rewrite !inv_S in *; cbv zeta in *.
   destruct (fi <? length (m_imports m))%nat; [reflexivity|].
   destruct (nth_opt (m_funcs m) (fi - length (m_imports m))) as [fn|]; [|reflexivity].
   destruct (nth_opt (m_types m) (f_type fn)) as [ft|]; [|reflexivity].
@@ -118,7 +239,9 @@ End Mono.
 Lemma mem_get_set_same mm a b : mem_get (mem_set mm a b) a = b.
 Proof. unfold mem_get, mem_set; cbn. rewrite PositiveMap.gss. reflexivity. Qed.
 Lemma mem_key_inj a b : mem_key a = mem_key b -> a = b.
-Proof. unfold mem_key. intros H. apply N.succ_pos_inj in H. exact H. Qed.
+Proof.
+  unfold mem_key. intros H. apply N.succ_inj. rewrite <- !N.succ_pos_spec. rewrite H. reflexivity.
+Qed.
 Lemma mem_get_set_other mm a a' b : a <> a' -> mem_get (mem_set mm a b) a' = mem_get mm a'.
 Proof.
   intros H. unfold mem_get, mem_set; cbn. rewrite PositiveMap.gso; [reflexivity|].
@@ -156,7 +279,8 @@ Proof.
   intros Hx. unfold mem_store, mem_load, in_bounds. destruct (N.leb_spec (ea + N.of_nat k) (mem_len mm)); [|discriminate].
   intros E; inversion E; subst; clear E. rewrite mem_write_len.
   destruct (N.leb_spec (ea + N.of_nat k) (mem_len mm)); [|lia].
-  f_equal. rewrite <- (bytes_of_length k x) at 1. rewrite mem_read_write. apply of_bytes_bytes_of. exact Hx.
+  f_equal. pose proof (mem_read_write (bytes_of k x) mm ea) as R. rewrite bytes_of_length in R. rewrite R.
+  apply of_bytes_bytes_of. exact Hx.
 Qed.
 Theorem load_store_bounds mm ea k x :
   (mem_load mm ea k = None <-> (mem_len mm < ea + N.of_nat k)%N) /\
